@@ -71,10 +71,13 @@ def verdictsOf (diffs : List String) (viol : List (String × String)) : List Ver
   let v := viol.map fun (r, t) => Verdict.violated r t
   if d.isEmpty && v.isEmpty then [Verdict.ok] else d ++ v
 
+/-- one verdict = one line: line breaks and tabs inside a message (e.g. a `repr`) are flattened -/
+def oneLine (s : String) : String := String.ofList (s.toList.map fun c => if c == '\n' || c == '\r' || c == '\t' then ' ' else c)
+
 def Verdict.render (i : Nat) : Verdict → String
   | .ok => s!"{i}\tok"
-  | .diff w => s!"{i}\tdiff\t{w}"
-  | .violated r d => s!"{i}\tviolated\t{r}\t{d}"
-  | .bad w => s!"{i}\tbad-op\t{w}"
+  | .diff w => s!"{i}\tdiff\t{oneLine w}"
+  | .violated r d => s!"{i}\tviolated\t{oneLine r}\t{oneLine d}"
+  | .bad w => s!"{i}\tbad-op\t{oneLine w}"
 
 end Ww.Driver
